@@ -117,7 +117,7 @@ def judge(ck, inp, probe, outputs, observed, ans, ctl):
             lines, _m = dp.canon_lines(ob.files[fi][len(ob.before[fi]):] if kept else ob.files[fi], probe)
             impl_files.append({'prefix_kept': kept, 'appended': lines})
         impl = {'end': impl_end, 'trace': ob.starts, 'files': impl_files}
-        model = {'end': ms['end'], 'trace': ms['trace'], 'files': ms['files']}
+        model = {'end': ms['end'], 'trace': ms['trace'], 'files': [{'prefix_kept': f['prefix_kept'], 'appended': f['appended']} for f in ms['files']]}
         if impl != model:
             what = [k for k in impl if impl[k] != model[k]]
             ck.disagree('c08.sessions: session %d differs in %s' % (si, what), dict(inp, session=si),
